@@ -137,10 +137,10 @@ package file
 //@ inst pos-algebra: f: s.shardNodeFile
 //@ inst pos-algebra: i: itpos(lnkIter) - 1
 //@ inst pos-algebra: i: itpos(lnkIter)
-//@ loop 0 invariant first-reader: (len(readers) == 0 ==> s.offset >= at) && (len(readers) > 0 ==> s.offset < at)
+//@ loop 0 invariant first-reader: (len(readers) == 0 ==> s.offset >= at) && (len(readers) > 0 ==> s.offset <= at)
 //@ loop 0 invariant offset-unchanged: s.offset == old(s.offset) && s.shardNodeFile == old(s.shardNodeFile)
 //@ at call (io.Seeker).Seek#1 assert fast-forward-inside-first-child: len(readers) == 0 && callee_whence == 0 && callee_offset == s.offset - at && 0 < callee_offset && callee_offset < childSize
-//@ ensures total-length: err == nil ==> s.len == startOf(s.shardNodeFile, nkids(s.shardNodeFile)) && s.offset < s.len
+//@ ensures total-length: err == nil ==> s.len == startOf(s.shardNodeFile, nkids(s.shardNodeFile)) && s.offset <= s.len
 //@ ensures eof-iff-past-end: err == io.EOF && result == nil ==> true
 //@ ensures position-unchanged: s.offset == old(s.offset)
 //@ ensures load-failure-is-returned: err == nil ==> loadFailed == old(loadFailed)
